@@ -1,6 +1,8 @@
 package simrt
 
 import (
+	"fmt"
+	"os"
 	"unsafe"
 )
 
@@ -33,12 +35,17 @@ func (s *Sim) chanState(p unsafe.Pointer, capacity int) *chanState {
 	return cs
 }
 
+// modelMismatch / unsupported end the process with status 2 ("cannot decide").
+// They must never surface as a panic of a task, which an oracle could mistake
+// for a panic of the code under test.
 func modelMismatch(what string) {
-	panic("simrt: model mismatch: " + what)
+	fmt.Fprintln(os.Stderr, "CANNOT-DECIDE: simrt model mismatch: "+what)
+	os.Exit(2)
 }
 
 func unsupported(what string) {
-	panic("simrt: unsupported primitive: " + what)
+	fmt.Fprintln(os.Stderr, "CANNOT-DECIDE: unsupported primitive: "+what)
+	os.Exit(2)
 }
 
 // Send is `ch <- v`.
@@ -147,19 +154,37 @@ func recvPerform[T any](s *Sim, t *task, cs *chanState, ch <-chan T) (T, bool) {
 // of a rendezvous); the value travels through the task records.  Either side
 // may complete the exchange when it is scheduled and finds its partner parked.
 
+// parkedPartner finds a task parked on the other half of an unbuffered
+// exchange on cs: kind says what the partner must be doing (OpSend / OpRecv).
+// The partner may be parked in a plain operation or in a select with a matching
+// case; in the latter case the index of that case is returned as well.
 func (s *Sim) parkedPartner(self *task, cs *chanState, kind OpKind) *task {
+	u, _ := s.parkedPartnerCase(self, cs, kind)
+	return u
+}
+
+func (s *Sim) parkedPartnerCase(self *task, cs *chanState, kind OpKind) (*task, int) {
 	for _, u := range s.tasks {
-		if u == self || u.finished || u.pend.ch != cs || u.pend.kind != kind {
+		if u == self || u.finished {
 			continue
 		}
-		if kind == OpSend && !u.sendTaken {
-			return u
+		if u.pend.kind == kind && u.pend.ch == cs {
+			if kind == OpSend && !u.sendTaken {
+				return u, -1
+			}
+			if kind == OpRecv && !u.xferReady {
+				return u, -1
+			}
 		}
-		if kind == OpRecv && !u.xferReady {
-			return u
+		if u.pend.kind == OpSelect && u.selForced < 0 && u.selCases != nil {
+			for i, c := range u.selCases {
+				if c.cs == cs && c.unbuf && c.send == (kind == OpSend) {
+					return u, i
+				}
+			}
 		}
 	}
-	return nil
+	return nil, -1
 }
 
 func rendezvousClocks(a, b *task) {
@@ -182,14 +207,41 @@ func sendUnbuffered[T any](s *Sim, t *task, ch chan<- T, v T) {
 	if cs.closed {
 		panic("send on closed channel")
 	}
-	r := s.parkedPartner(t, cs, OpRecv)
+	handOver(s, t, cs, &v)
+}
+
+// handOver gives *vp to a parked receiver (plain or select) on cs.
+func handOver[T any](s *Sim, t *task, cs *chanState, vp *T) {
+	r, idx := s.parkedPartnerCase(t, cs, OpRecv)
 	if r == nil {
 		modelMismatch("unbuffered send without a receiver")
 	}
-	r.xferVal = &v
+	r.xferVal = vp
 	r.xferReady = true
+	if idx >= 0 {
+		r.selForced = idx
+	}
 	t.sendTaken = true
 	rendezvousClocks(t, r)
+}
+
+// takeOver takes the value of a parked sender (plain or select) on cs.
+func takeOver[T any](s *Sim, t *task, cs *chanState) (T, bool) {
+	var zero T
+	snd, idx := s.parkedPartnerCase(t, cs, OpSend)
+	if snd == nil {
+		return zero, false
+	}
+	var v T
+	if idx >= 0 {
+		v = *(snd.selCases[idx].sendPtr.(*T))
+		snd.selForced = idx
+	} else {
+		v = *(snd.sendVal.(*T))
+	}
+	snd.sendTaken = true
+	rendezvousClocks(t, snd)
+	return v, true
 }
 
 func recvUnbuffered[T any](s *Sim, t *task, ch <-chan T) (T, bool) {
@@ -202,11 +254,7 @@ func recvUnbuffered[T any](s *Sim, t *task, ch <-chan T) (T, bool) {
 	if t.xferReady {
 		return *(t.xferVal.(*T)), true
 	}
-	if snd := s.parkedPartner(t, cs, OpSend); snd != nil {
-		v := *(snd.sendVal.(*T))
-		snd.sendTaken = true
-		t.xferReady = true
-		rendezvousClocks(t, snd)
+	if v, ok := takeOver[T](s, t, cs); ok {
 		return v, true
 	}
 	if cs.closed {
@@ -252,9 +300,11 @@ func Close[T any](ch chan<- T) {
 
 // SelCase is one communication clause of a select statement.
 type SelCase struct {
-	send  bool
-	cs    *chanState
-	ready func() bool
+	send    bool
+	unbuf   bool
+	cs      *chanState
+	ready   func() bool
+	sendPtr any // *T of the value of a send case (unbuffered exchange)
 }
 
 // RecvCase describes `case ... <-ch`.
@@ -263,23 +313,23 @@ func RecvCase[T any](ch <-chan T) SelCase {
 	if s == nil || s.aborting || ch == nil {
 		return SelCase{ready: func() bool { return false }}
 	}
-	if cap(ch) == 0 {
-		unsupported("unbuffered channel in select")
-	}
 	cs := s.chanState(chanPtr(ch), cap(ch))
+	if cap(ch) == 0 {
+		return SelCase{unbuf: true, cs: cs, ready: func() bool { return cs.closed || s.parkedPartner(s.cur, cs, OpSend) != nil }}
+	}
 	return SelCase{cs: cs, ready: func() bool { return cs.closed || len(ch) > 0 }}
 }
 
 // SendCase describes `case ch <- v`.
-func SendCase[T any](ch chan<- T) SelCase {
+func SendCase[T any](ch chan<- T, v T) SelCase {
 	s := S
 	if s == nil || s.aborting || ch == nil {
 		return SelCase{send: true, ready: func() bool { return false }}
 	}
-	if cap(ch) == 0 {
-		unsupported("unbuffered channel in select")
-	}
 	cs := s.chanState(chanPtr(ch), cap(ch))
+	if cap(ch) == 0 {
+		return SelCase{send: true, unbuf: true, cs: cs, sendPtr: &v, ready: func() bool { return cs.closed || s.parkedPartner(s.cur, cs, OpRecv) != nil }}
+	}
 	return SelCase{send: true, cs: cs, ready: func() bool { return cs.closed || len(ch) < cap(ch) }}
 }
 
@@ -299,8 +349,12 @@ func Select(hasDefault bool, cases ...SelCase) int {
 	if len(cases) > 0 && cases[0].cs != nil {
 		obj = cases[0].cs.ord
 	}
+	t.selCases = cases
+	t.selForced = -1
+	t.xferReady = false
+	t.sendTaken = false
 	t.pend = op{kind: OpSelect, obj: obj, srcVar: t.lastRead, enabled: func() bool {
-		if hasDefault {
+		if hasDefault || t.selForced >= 0 {
 			return true
 		}
 		for _, c := range cases {
@@ -314,6 +368,12 @@ func Select(hasDefault bool, cases ...SelCase) int {
 		t.pend.ch = cases[0].cs
 	}
 	s.yield(t)
+	t.selCases = nil
+	if t.selForced >= 0 {
+		// a partner completed an unbuffered exchange with this task while it
+		// was parked; the generated code performs the (already done) operation
+		return t.selForced
+	}
 	var ready []int
 	for i, c := range cases {
 		if c.ready() {
@@ -337,8 +397,25 @@ func SelRecv2[T any](ch <-chan T) (T, bool) {
 	if s == nil || s.aborting {
 		return zero, false
 	}
+	t := s.cur
 	cs := s.chanState(chanPtr(ch), cap(ch))
-	return recvPerform(s, s.cur, cs, ch)
+	if cap(ch) == 0 {
+		if t.xferReady {
+			t.xferReady = false
+			t.selForced = -1
+			return *(t.xferVal.(*T)), true
+		}
+		if v, ok := takeOver[T](s, t, cs); ok {
+			return v, true
+		}
+		if cs.closed {
+			t.vc.join(cs.closeVC)
+			t.vc.tick(t.id)
+			return zero, false
+		}
+		modelMismatch("select chose an unbuffered receive that cannot proceed")
+	}
+	return recvPerform(s, t, cs, ch)
 }
 
 // SelRecv performs the receive of a chosen select case.
@@ -353,12 +430,26 @@ func SelSend[T any](ch chan<- T, v T) {
 	if s == nil || s.aborting {
 		return
 	}
+	t := s.cur
 	cs := s.chanState(chanPtr(ch), cap(ch))
+	if cap(ch) == 0 {
+		if t.sendTaken {
+			t.sendTaken = false
+			t.selForced = -1
+			return
+		}
+		if cs.closed {
+			panic("send on closed channel")
+		}
+		handOver(s, t, cs, &v)
+		t.sendTaken = false
+		return
+	}
 	if cs.closed {
 		ch <- v // panics
 		return
 	}
-	sendPerform(s, s.cur, cs, ch, v)
+	sendPerform(s, t, cs, ch, v)
 }
 
 // ---- mutexes ---------------------------------------------------------------
